@@ -148,8 +148,9 @@ func upTo(n int) []int {
 
 var longUnits = []string{"a", "ab", "a/b", "é", "*", "[k=v]", "%s", " ", "meta", " "}
 
-// genStr draws a string from the alphabet; when strings are a large dimension,
-// one draw in four is a long string (a repeated unit, so that it is cheap to draw).
+// genStr draws a string from the alphabet or, rarely, a numbered one; when strings
+// are a large dimension, one draw in four is a long string (a repeated unit, so
+// that it is cheap to draw).
 func genStr(t *rapid.T, label string, alphabet []string) string {
 	if bigDims[dimStr] && rapid.IntRange(0, 3).Draw(t, label+"-long") == 3 {
 		unit := rapid.SampledFrom(longUnits).Draw(t, label+"-unit")
@@ -157,7 +158,12 @@ func genStr(t *rapid.T, label string, alphabet []string) string {
 		s := strings.Repeat(unit, n/len(unit)+1)[:n]
 		return strings.ToValidUTF8(s, "?")
 	}
-	return rapid.SampledFrom(alphabet).Draw(t, label)
+	// one more choice than the alphabet has: a numbered string, so that over a long life
+	// (or a large message) many distinct names, key values, origins and targets occur
+	if i := rapid.IntRange(0, len(alphabet)).Draw(t, label); i < len(alphabet) {
+		return alphabet[i]
+	}
+	return fmt.Sprintf("x%d", rapid.IntRange(0, 999).Draw(t, label+"-number"))
 }
 
 // genEnum draws the number of an open proto3 enum with nvalid declared values:
